@@ -145,7 +145,7 @@ fn gen_wspec(r: &mut Rng, depth: usize) -> WSpec {
     if depth == 0 || r.chance(1, 3) {
         return match r.below(6) {
             0 => WSpec::Vec(r.below(4), r.below(3) * 7),
-            1 => WSpec::BM(r.below(4), r.below(5), r.below(3) * 9),
+            1 => WSpec::BM(r.below(7), r.below(5), r.below(3) * 9),
             2 | 3 => WSpec::Slice(r.below(40)),
             _ => WSpec::Uninit(r.below(40)),
         };
